@@ -45,6 +45,24 @@ def entry_points(text: str) -> List[Tuple[str, Any]]:
 
     jsonpath = _K(_jp)
 
+    # another environment of the same class, with another function under a standard name, uses the same text first:
+    # which functions a text means belongs to the environment it is given to
+    try:
+        from jsonpath.function_extensions import ExpressionType, FilterFunction
+
+        class Ninety(FilterFunction):
+            arg_types = [ExpressionType.NODES]
+            return_type = ExpressionType.VALUE
+
+            def __call__(self, *_a: Any) -> Any:
+                return 90
+
+        other = _jp.JSONPathEnvironment()
+        other.function_extensions["count"] = Ninety()
+        for fn in (other.findall, lambda t, d: list(other.finditer(t, d)), other.match):
+            fn(text, {"a": [1, [2]], "b": [3]})
+    except Exception:  # noqa: BLE001
+        pass
     env = _K(_jp.JSONPathEnvironment())
     comp = _K(_jp.compile(text))
     ecomp = _K(env.compile(text))
@@ -113,7 +131,8 @@ def replay(rec: Dict[str, Any]) -> List[Tuple[str, Dict[str, Any], str]]:
             exp = [canon(v) for v in rec["res"][d]]
             forms = [("parsed", lambda: untag(dt["doc"]))]
             if isinstance(base, (list, dict)):
-                forms += [("json-text", lambda: json.dumps(base)), ("file", lambda: io.StringIO(json.dumps(base)))]
+                forms += [("json-text", lambda: json.dumps(base)), ("file", lambda: io.StringIO(json.dumps(base))),
+                          ("json-text-indented", lambda: "\n  " + json.dumps(base, indent=2) + "\n"), ("file-bytes", lambda: io.BytesIO(json.dumps(base).encode()))]
             for fname, mk in forms:
                 for ename, fn in eps:
                     want = exp[:1] if ename.endswith("match") else exp
